@@ -656,35 +656,26 @@ func (e *Env) field(x *SExpr) Term {
 			return Term{fmt.Sprintf("(%s %s)", ss.fnames[i], base.S), k, f.Type()}
 		}
 	}
-	// promoted through embedded fields (one level)
-	for i := 0; i < st.NumFields(); i++ {
-		f := st.Field(i)
-		if !f.Embedded() {
-			continue
-		}
-		es, en, ep := derefStruct(f.Type())
-		if es == nil {
-			continue
-		}
-		for j := 0; j < es.NumFields(); j++ {
-			if es.Field(j).Name() == x.Name {
-				var inner Term
+	// promoted through embedded fields (any depth): walk the selection path go/types computes
+	if obj, path, _ := types.LookupFieldOrMethod(base.T, true, e.pkg, x.Name); obj != nil && len(path) > 1 {
+		if _, isVar := obj.(*types.Var); isVar {
+			cur := base
+			for _, idx := range path {
+				cs, cn, cp := derefStruct(cur.T)
+				if cs == nil || idx >= cs.NumFields() {
+					e.fail("type %v has no field %s", base.T, x.Name)
+				}
+				f := cs.Field(idx)
 				k := fe.sorts.SortOf(f.Type())
-				if isPtr {
-					h, _ := fe.fieldHeap(named, i)
-					inner = Term{fmt.Sprintf("(select %s %s)", fe.hget(e.st, h), base.S), k, f.Type()}
+				if cp {
+					h, _ := fe.fieldHeap(cn, idx)
+					cur = Term{fmt.Sprintf("(select %s %s)", fe.hget(e.st, h), cur.S), k, f.Type()}
 				} else {
-					ss := fe.sorts.structInfo(fe.sorts.SortOf(named))
-					inner = Term{fmt.Sprintf("(%s %s)", ss.fnames[i], base.S), k, f.Type()}
+					ss := fe.sorts.structInfo(fe.sorts.SortOf(cn))
+					cur = Term{fmt.Sprintf("(%s %s)", ss.fnames[idx], cur.S), k, f.Type()}
 				}
-				fk := fe.sorts.SortOf(es.Field(j).Type())
-				if ep {
-					h, _ := fe.fieldHeap(en, j)
-					return Term{fmt.Sprintf("(select %s %s)", fe.hget(e.st, h), inner.S), fk, es.Field(j).Type()}
-				}
-				ss := fe.sorts.structInfo(fe.sorts.SortOf(en))
-				return Term{fmt.Sprintf("(%s %s)", ss.fnames[j], inner.S), fk, es.Field(j).Type()}
 			}
+			return cur
 		}
 	}
 	e.fail("type %v has no field %s", base.T, x.Name)
